@@ -36,7 +36,7 @@ AppendPtr(S, p, count) ==
            d2 == InsertRange(d1, d1.size, PRange(S, p, len), TRUE)
        IN [d |-> DoPushBack(d2, 0), n |-> len, oob |-> S.oob \/ POob(S, p, len)]
   ELSE [d |-> InsertRange(S.d, S.d.size - 1, PRange(S, p, len), TRUE),       \* getBackInsertIterator()
-        n |-> S.n + count,                                                    \* m_size += theCount  (npos = -1 !)
+        n |-> S.n + len,                                                      \* m_size += theLength  (repair 605656a; was theCount)
         oob |-> S.oob \/ POob(S, p, len)]
 
 (* ---- append(size_type theCount, XalanDOMChar theChar) *)
@@ -56,11 +56,16 @@ ErasePos(S, start, count) ==
 (* ---- resize(size_type theCount, XalanDOMChar theChar) *)
 ResizeStr(S, count, ch) ==
   IF count = S.n THEN S
-  ELSE [S EXCEPT !.d = SetBack0(Resize(S.d, count + 1, Val(ch))), !.n = count]      \* the old terminator stays where it was
+  ELSE LET d1 == Resize(S.d, count + 1, Val(ch))
+           d2 == IF ~DEmpty(S) /\ count > S.n THEN [d1 EXCEPT !.mem[S.n + 1] = ch] ELSE d1   \* the old terminator is now inside
+       IN [S EXCEPT !.d = SetBack0(d2), !.n = count]                                           \* the string (repair 0de52b0)
 
 (* ---- insert(size_type thePosition, const XalanDOMChar* theString, size_type theCount) *)
 InsertPtr(S, pos, p, count) ==
   IF DEmpty(S) THEN AppendPtr(S, p, count)
+  ELSE IF count # 0 /\ p.own                    \* the source is part of this string: copied into a temporary vector first
+  THEN [d |-> InsertRange(S.d, pos, Ext([j \in 1..count |-> ReadSrc(S.d, PRange(S, p, count), j - 1)]), TRUE),   \* (repair edd5c40)
+        n |-> S.n + count, oob |-> S.oob \/ POob(S, p, count)]
   ELSE [d |-> InsertRange(S.d, pos, PRange(S, p, count), TRUE), n |-> S.n + count, oob |-> S.oob \/ POob(S, p, count)]
 
 AssignN(S, count, ch) == AppendN(ErasePos(S, 0, Npos), count, ch)                  \* assign(theCount, theChar)
@@ -106,7 +111,7 @@ SImplApply(S, op) ==
     [] op.op = "insertIt"      -> SR(InsertNStr(S, op.pos, 1, op.ch), op.pos, <<>>)
     [] op.op = "erase"         -> SR(ErasePos(S, op.pos, op.n), 0, <<>>)
     [] op.op = "eraseIt"       -> SR([S EXCEPT !.d = EraseRange(S.d, op.pos, op.pos + 1), !.n = S.n - 1], op.pos, <<>>)
-    [] op.op = "eraseRange"    -> SR(LET d1 == EraseRange(S.d, op.first, op.last) IN [S EXCEPT !.d = d1, !.n = d1.size - 1], op.first, <<>>)
+    [] op.op = "eraseRange"    -> SR(LET d1 == EraseRange(S.d, op.first, op.last) IN [S EXCEPT !.d = d1, !.n = IF d1.size = 0 THEN 0 ELSE d1.size - 1], op.first, <<>>)   \* (repair 10a7d02)
     [] op.op = "assign"        -> LET T == FromUnits(op.src) IN SR([S EXCEPT !.d = AssignFrom(S.d, Elems(T.d)), !.n = T.n], 0, <<>>)
     [] op.op = "selfAssign"    -> SR(S, 0, <<>>)
     [] op.op = "assignSub"     -> SR(AssignSubExt(S, op.src, op.pos, op.n), 0, <<>>)
@@ -115,9 +120,9 @@ SImplApply(S, op) ==
     [] op.op = "assignN"       -> SR(AssignN(S, op.n, op.ch), 0, <<>>)
     [] op.op = "resize"        -> SR(ResizeStr(S, op.n, 0), 0, <<>>)
     [] op.op = "resizeC"       -> SR(ResizeStr(S, op.n, op.ch), 0, <<>>)
-    [] op.op = "substr"        -> LET T == AssignSubExt(FromUnits(op.out), me, op.pos, IF op.n = Npos THEN S.n ELSE op.n)
+    [] op.op = "substr"        -> LET T == AssignSubExt(FromUnits(op.out), me, op.pos, IF op.n = Npos THEN S.n - op.pos ELSE op.n)   \* (repair f452096)
                                   IN SR([S EXCEPT !.oob = T.oob], 0, Units(T))
-    [] op.op = "substrSelf"    -> SR(AssignSubSelf(S, op.pos, IF op.n = Npos THEN S.n ELSE op.n), 0, <<>>)
+    [] op.op = "substrSelf"    -> SR(AssignSubSelf(S, op.pos, IF op.n = Npos THEN S.n - op.pos ELSE op.n), 0, <<>>)
     [] op.op = "swap"          -> SR(FromUnits(op.src), 0, me)
     [] op.op = "clear"         -> SR(EraseAll(S), 0, <<>>)
     [] op.op = "reserve"       -> SR([S EXCEPT !.d = Reserve(S.d, op.n + 1)], 0, <<>>)
@@ -125,7 +130,7 @@ SImplApply(S, op) ==
     [] op.op = "copySub"       -> SR(S, 0, Units(CopyOf(me, op.pos, op.n)))
     [] op.op = "compare"       -> SR(S, StrCmp(me, op.src), <<>>)
     [] op.op = "equals"        -> SR(S, IF me = op.src THEN 1 ELSE 0, <<>>)
-    [] op.op = "at"            -> SR(S, IF op.i >= S.d.size THEN NoValue ELSE S.d.mem[op.i + 1], <<>>)        \* m_data.at(theIndex)
+    [] op.op = "at"            -> SR(S, IF op.i >= S.n THEN NoValue ELSE S.d.mem[op.i + 1], <<>>)             \* m_data.at(theIndex < m_size ? theIndex : m_data.size())  (repair d3fc783)
 
 (* capacity(): m_data.capacity() - 1, or 0 *)
 Capacity(S) == IF S.d.alloc = 0 THEN 0 ELSE S.d.alloc - 1
@@ -136,28 +141,25 @@ Invariants(S) ==
   /\ DEmpty(S) \/ S.d.mem[S.d.size] = 0
   /\ WellFormed(S.d)
 
-(* ---- known deviations of the algorithm (keys of known_findings: property C20) ----------------- *)
-(* string-append-substring-npos: append(str, pos, npos) on a string whose buffer exists adds npos to m_size *)
-KD_AppendNpos(S, op) == op.op \in {"appendSub", "appendSubSelf"} /\ op.n = Npos /\ ~DEmpty(S)
-(* string-resize-grow-fill: resize(n, ch) growing a string whose buffer exists leaves the old terminator   *)
-(* inside the string (the new last-but-... unit is 0 instead of ch)                                         *)
-KD_ResizeFill(S, op) == op.op = "resizeC" /\ op.n > S.n /\ ~DEmpty(S) /\ op.ch # 0
-(* string-insert-substring-of-self: insert(p, s, q, n) on s itself without reallocation reads the source    *)
-(* units after the tail has been shifted over them                                                          *)
-KD_InsertSubSelf(S, op) ==
+(* ---- repaired paths --------------------------------------------------------------------------- *)
+(* Until the fix: commits named above these calls deviated from std::basic_string (known_findings   *)
+(* keys string-append-substring-npos, string-resize-grow-fill, string-insert-substring-of-self,        *)
+(* string-substr-npos-position, string-at-length, string-erase-iterators-unallocated, now "fixed").    *)
+(* The predicate only marks the transitions that run through the repaired code, so that all of them    *)
+(* are replayed on the real class; the refinement has no exclusions.                                   *)
+RP_AppendNpos(S, op) == op.op \in {"appendSub", "appendSubSelf"} /\ op.n = Npos /\ ~DEmpty(S)
+RP_ResizeFill(S, op) == op.op = "resizeC" /\ op.n > S.n /\ ~DEmpty(S) /\ op.ch # 0
+RP_InsertSubSelf(S, op) ==                     \* the inputs on which the unrepaired in-place insertion read moved units
   /\ op.op = "insertSubSelf" /\ ~DEmpty(S) /\ op.n > 0
   /\ S.d.size + op.n <= S.d.alloc
   /\ S.d.size - op.pos > op.n
   /\ op.pos2 > op.pos
   /\ \E c \in CMax(op.pos2, op.pos + op.n)..(op.pos2 + op.n - 1) : S.d.mem[c + 1] # S.d.mem[c + 1 - op.n]
-(* string-substr-npos-position: substr(out, pos > 0, npos) passes length() instead of length() - pos        *)
-KD_SubstrNpos(S, op) == op.op \in {"substr", "substrSelf"} /\ op.n = Npos /\ op.pos > 0
-(* string-at-length: at(length()) returns the terminator instead of throwing std::out_of_range              *)
-KD_AtLen(S, op) == op.op = "at" /\ op.i = S.n /\ ~DEmpty(S)
-(* string-erase-iterators-unallocated: erase(begin(), end()) on a string without buffer sets m_size = -1     *)
-KD_EraseRangeEmpty(S, op) == op.op = "eraseRange" /\ DEmpty(S)
+RP_SubstrNpos(S, op) == op.op \in {"substr", "substrSelf"} /\ op.n = Npos /\ op.pos > 0
+RP_AtLen(S, op) == op.op = "at" /\ op.i = S.n /\ ~DEmpty(S)
+RP_EraseRangeEmpty(S, op) == op.op = "eraseRange" /\ DEmpty(S)
 
-SKnownDeviation(S, op) ==
-  \/ KD_AppendNpos(S, op) \/ KD_ResizeFill(S, op) \/ KD_InsertSubSelf(S, op)
-  \/ KD_SubstrNpos(S, op) \/ KD_AtLen(S, op) \/ KD_EraseRangeEmpty(S, op)
+SRepairedPath(S, op) ==
+  \/ RP_AppendNpos(S, op) \/ RP_ResizeFill(S, op) \/ RP_InsertSubSelf(S, op)
+  \/ RP_SubstrNpos(S, op) \/ RP_AtLen(S, op) \/ RP_EraseRangeEmpty(S, op)
 =============================================================================
